@@ -126,6 +126,10 @@ def compute_features(sig, fs, f_range, center_extrema='peak', burst_method='cycl
             desired application.
             """)
 
+    # Prevent overwriting the caller's dictionaries
+    burst_kwargs = burst_kwargs.copy() if isinstance(burst_kwargs, dict) else burst_kwargs
+    threshold_kwargs = threshold_kwargs.copy()
+
     # Ensure required kwargs are set for amplitude burst detection
     if burst_method == 'amp':
         burst_kwargs['fs'] = fs
